@@ -102,6 +102,7 @@ func checkC13(c *Ctx, r *Report) {
 		}
 		r.floor("C13.IFACE", "argument type comparisons in the interface conformance check", nA, 1)
 	}
+	c13SubWrap(c, r, sub)
 	uv := c.fn("(*Union).Validate")
 	okU := false
 	if uv != nil {
@@ -658,6 +659,7 @@ func c13DirUse(c *Ctx, r *Report, vreach map[*ssa.Function]bool) {
 		}
 	}
 	r.check("C13.DIRUSE", "directive uses on field arguments are validated where fields are validated", vdu.Pos(), argInFields, "validateFieldDefs never calls validateDirUse: directive uses on fields and on their arguments are not checked")
+	dirUseArgLoop(c, r, "C13.DIRUSE")
 }
 
 func c13Drop(c *Ctx, r *Report, vreach map[*ssa.Function]bool) {
@@ -891,10 +893,72 @@ func c13Walk(c *Ctx, r *Report) {
 			tbl = tableOfLoop(l)
 		}
 		seen[what+":"+tbl] = true
+		// ... and to every entry: inside the loop nothing but the loop's own test decides whether the call is made
+		filter := ""
+		if l != nil {
+			for _, d := range loopControlDeps(l, ci.Block()) {
+				if !isRangeCond(d.ifi.Cond) {
+					filter = shortPath(vpath(d.ifi.Cond))
+				}
+			}
+		}
+		r.check("C13.WALK", fmt.Sprintf("%s: %s #%d is applied to every entry, unfiltered", fnName(vf), what, n), ci.Pos(), filter == "",
+			"inside the loop the check is skipped depending on "+filter+" (a set of definitions changed by this load): a definition that became invalid because another one was extended is not re-checked, and the same text loaded as one document is refused")
 		r.check("C13.WALK", fmt.Sprintf("%s: %s #%d is applied to every entry of a root table", fnName(vf), what, n), ci.Pos(), tbl != "",
 			"the check runs over something other than Root.types.list / Root.dirs.list (a list of the definitions changed by this load): a definition that became invalid because another one was extended is not re-checked, and the same text loaded as one document is refused")
 	}
 	for _, want := range []string{"Validate:types", "validateTypeName:types", "validateDirUses:types", "validateTypeName:dirs"} {
 		r.check("C13.WALK", "validation pass covers "+want, vf.Pos(), seen[want], "no such loop in Root.validate")
 	}
+}
+
+// c13SubWrap: "a compatible type": the sub-type relation compares the two types wrapper by wrapper (a list
+// with a list, non-null with non-null, plus T! for T). In the predicate and the two-type helpers it reaches,
+// the types handed on are the parameters themselves, the Base of a wrapper that was recognised by a type
+// test, or a member of a member list - never the result of a function that transforms a type (BaseType strips
+// every wrapper at once, so [U!]! and U would be related through their named types alone).
+func c13SubWrap(c *Ctx, r *Report, sub *ssa.Function) {
+	r.rule("C13.SUBWRAP", "in the sub-type predicate and the two-type helpers it reaches no argument of a two-type call is the result of a type-transforming function: wrappers are peeled pairwise under type tests")
+	if sub == nil {
+		r.undecided("C13.SUBWRAP", "anchor (*Object).isSubType", token.NoPos, "not found")
+		return
+	}
+	isType := func(t types.Type) bool { return c.isNamed(t, "Type") }
+	twoType := func(fn *ssa.Function) bool {
+		k := 0
+		for _, p := range fn.Params {
+			if isType(p.Type()) {
+				k++
+			}
+		}
+		return k >= 2
+	}
+	n := 0
+	for fn := range c.reachable(sub) {
+		if !c.inPkg(fn) || !twoType(fn) {
+			continue
+		}
+		r.fnSeen(fnName(fn))
+		k := 0
+		for _, ci := range callsIn(fn) {
+			cal := ci.Common().StaticCallee()
+			if cal == nil || !c.inPkg(cal) || !twoType(cal) {
+				continue
+			}
+			n++
+			k++
+			bad := ""
+			for _, a := range ci.Common().Args {
+				if !isType(a.Type()) {
+					continue
+				}
+				if call, ok := a.(*ssa.Call); ok {
+					bad = calleeDesc2(call)
+				}
+			}
+			r.check("C13.SUBWRAP", fmt.Sprintf("%s: two-type call #%d (%s) compares the types as they are or peeled pairwise", fnName(fn), k, cal.Name()), ci.Pos(), bad == "",
+				"an operand is the result of "+bad+": the relation is evaluated on transformed types, so wrapper mismatches (a nullable or single value for a non-null list) between an interface field and its implementation are accepted")
+		}
+	}
+	r.floor("C13.SUBWRAP", "two-type calls in the sub-type predicate family", n, 4)
 }
